@@ -10,17 +10,17 @@ RULE = ("Stack trees (depth <= 4, width <= 3) built with the public constructors
         "with every combination of obj / varname / start_line (absent, valid, beyond the file) / description present or "
         "absent, is_async, is_exiting, hide; inner stacks; children mixing child contexts, stub child stacks and populated "
         "child stacks with/without root; leaf; error (single exception or group, constructed or really raised through nested calls, multi-line message, raised group with a raised member, chained with __cause__); frame hide / hide_line / lineno 0; all names "
-        "and texts ASCII tokens made unique per element (a quarter of the trees with multi-line descriptions and multi-line reprs of root / leaf). Each tree is formatted in all 8 option combinations on CPython "
+        "and texts ASCII tokens made unique per element (a quarter of the trees with multi-line descriptions and multi-line reprs of root / leaf, a quarter with descriptions and reprs that are not ASCII - none of the marker characters). Each tree is formatted in all 8 option combinations on CPython "
         "3.9-3.12. Oracle: (1) every element of format() ends with exactly one newline, str(x) is their concatenation (also for "
         "Frame and Context); (2) round trip: a recursive-descent reader of the box-drawing prefixes rebuilds the tree (frames "
         "with function/line, contexts with their unique variable token, inner stacks with leaf/error, child entries with token "
         "and nested content) which must equal the abstraction of the generated tree under the same options (hidden elements "
         "iff show_hidden_frames, contexts iff show_contexts, code line omitted for an exiting last context); (3) the ascii_only "
-        "text equals the Unicode text with each prefix marker mapped to its ASCII counterpart and is pure ASCII. Non-trivial: "
+        "text equals the Unicode text with each prefix marker mapped to its ASCII counterpart (so the non-ASCII free text is carried over unchanged) and is pure ASCII when the free text is. Non-trivial: "
         "tree with a context having both inner stack and children, or a populated child stack, or a hidden element; distinct = "
         "distinct IR.")
 ASSUMPTIONS = [
-    "free text is ASCII tokens, so the property's premise 'names, source and reprs are ASCII' holds",
+    "free text is ASCII tokens in three quarters of the trees, so the property's premise 'names, source and reprs are ASCII' holds there; the non-ASCII text of the rest avoids the marker characters themselves",
     "a child Context and a child Stack are both 'child entry with text'; an inner/child stack that prints nothing is "
     "indistinguishable from an absent one - the oracle does not ask the format to distinguish them",
 ]
@@ -41,6 +41,8 @@ def check_tree(ws, interps, tree, out):
     cl = T.tree_classes(tree)
     if tree.get("ml_text"):
         cl.add("multi_line_reprs_and_descriptions")
+    if tree.get("uni_text"):
+        cl.add("non_ascii_reprs_and_descriptions")
     nontrivial = bool(cl & {"context_with_inner_and_children", "child_stack_populated", "hidden_frame", "hidden_context",
                             "hidden_frame_inside_context"})
     out.note_case(tree, nontrivial, classes=sorted(cl), n_eval=8 * len(interps))
@@ -71,7 +73,7 @@ def judge(tree, res):
             if [T.to_ascii(l) for l in lines] != asc:
                 return "ascii_only output is not the marker-for-marker image of the Unicode output (%s):\n%s---\n%s" % (
                     key, "".join(lines), "".join(asc))
-            if any(ord(ch) > 127 for l in asc for ch in l):
+            if not tree.get("uni_text") and any(ord(ch) > 127 for l in asc for ch in l):
                 return "ascii_only output contains non-ASCII characters (%s)" % key
     if res["str"] != "".join(res["default"]) or res["default"] != res["fmt"]["010"]:
         return "str(x) is not the concatenation of format() with default options"
@@ -88,8 +90,9 @@ def shard(arg):
         from hypothesis import strategies as st
         # a quarter of the trees carry multi-line free text: descriptions with a line break, roots and leaves whose repr
         # spans several lines
-        strat = st.tuples(T.trees(), st.sampled_from([False, False, False, True])).map(
-            lambda p: dict(p[0], ml_text=True) if p[1] else p[0])
+        # and a quarter text that is not ASCII (ascii_only replaces the prefix markers, nothing else)
+        strat = st.tuples(T.trees(), st.sampled_from([None, None, "ml_text", "uni_text"])).map(
+            lambda p: dict(p[0], **{p[1]: True}) if p[1] else p[0])
         fail = hyp_search(strat, lambda t: check_tree(ws, interps, t, out), seed=arg["seed"], max_examples=arg["n"],
                           shrink=arg["shrink"])
         if fail:
